@@ -3,7 +3,9 @@ package simnode
 import (
 	"fmt"
 	"net"
+	"os/signal"
 	"sync"
+	"syscall"
 
 	"github.com/lianxiangcloud/linkchain/app"
 	bc "github.com/lianxiangcloud/linkchain/blockchain"
@@ -28,6 +30,9 @@ var metricsOnce sync.Once
 // InitGlobals initialises the process-wide singletons the node code expects.
 func InitGlobals() {
 	metricsOnce.Do(func() {
+		// cmn.Kill() (finalizeCommit on ApplyBlock failure) sends SIGTERM to the
+		// own process; the simulator records the request through the log tap
+		signal.Ignore(syscall.SIGTERM)
 		log.Root().SetHandler(log.DiscardHandler())
 		pk := crypto.GenPrivKeyEd25519FromSecret([]byte("verif-metrics")).PubKey()
 		metrics.PrometheusMetricInstance.Init(cfg.DefaultConfig(), pk, log.NewNopLogger())
